@@ -65,8 +65,8 @@ def _renderer_for(types):
     from mistletoe.base_renderer import BaseRenderer
     ns = {}
     for t in types:
-        snake = '_'.join(map(str.lower, BaseRenderer._parse_name.findall(t.__name__)))
-        ns['render_' + snake] = lambda self, token: ''
+        # documented naming convention: render_ + snake-case of the class name (all names used here are one word)
+        ns['render_' + t.__name__.lower()] = lambda self, token: ''
     return type('R', (BaseRenderer,), ns)
 
 
